@@ -958,6 +958,13 @@ def o_account(v: View, stats=None):
         want = ("br.success",)
     elif how in ("aborted", "none"):
         want = ("br.cancel",)
+        kind_, val_ = v.final
+        lf_ = v.last_failed()
+        if how == "aborted" and kind_ == "raise" and lf_ is not None and lf_.obj is not None and val_ is lf_.obj:
+            # an abort predicate answered True somewhere, but what the caller received is the operation's own error: the call ended as
+            # a FAILED call and is accounted as one (a cancel next to a delivered failure would hide the failure from the breaker)
+            want = ("br.failure", lf_.klass)
+            s = lf_
     elif how == "special":
         sp = s.out[1]
         if sp in CANCEL_KINDS + ("genexit", "base"):
